@@ -69,6 +69,12 @@ def unexpected(env, obl, e, variant="", mode=""):
 def _prim(env, kind):
     B = env.B
     S = lambda f: B.struct.Struct(f)
+    if kind == "uvarint16":   # quick-tier stand-in under short reads: same code, at most 3 bytes
+        x = env.int("x", 0, 2**16 - 1)
+        return x, (lambda w: w.write_unsigned_varint(x)), env.ref.uvarint(x, 64), (lambda r: r.read_unsigned_varint()), EQ
+    if kind == "svarint16":
+        x = env.int("x", -2**15, 2**15 - 1)
+        return x, (lambda w: w.write_signed_varint(x)), env.ref.svarint(x), (lambda r: r.read_signed_varint()), EQ
     if kind == "uvarint":
         x = env.int("x", 0, 2**64 - 1)
         return x, (lambda w: w.write_unsigned_varint(x)), env.ref.uvarint(x, 64), (lambda r: r.read_unsigned_varint()), EQ
@@ -121,7 +127,7 @@ def h_prim_write(env, kind, N):
     if not ok:
         return unexpected(env, "prim.write-no-exception", e, kind)
     env.reach("prim.write-no-exception")
-    exp = env.data().append(bs, n)
+    exp = env.data().append(bs, env.split(n, 1, len(bs)))
     check_sink(env, "prim.bytes==reference", sink, off, exp)
     env.observe("out", [sink.at(off + i) for i in range(len(bs))])
     env.observe("outlen", sink.length)
@@ -512,9 +518,9 @@ def h_ser_write(env, t, N, maxlen, variant="list"):
     env.reach("ser.write-no-unexpected-exception")
     exp = env.data()
     if t[0] == "stream":
-        stream_expected(env, t, v, variant, exp)
+        stream_expected(env, t, v, variant, exp, True)
     else:
-        enc(env, t, v, exp)
+        enc(env, t, v, exp, True)
     check_sink(env, "ser.bytes==reference", sink, off, exp)
     env.observe("outlen", sink.length)
     env.observe("out", [sink.at(off + i) for i in range(exp.cap)])
@@ -661,3 +667,616 @@ CASE_TYPES = {
     "string": ["string"],
     "record": ["record", [["optional", ["int8"]], ["union", [None, ["bool"]]]]],
 }
+
+
+# ------------------------------------------------------------------------------------------------
+# C16 truncation: input = first c bytes (c symbolic, c < total) of a valid encoding of 1-3 values
+
+def _enc_units(env, t, v, exp, cache):
+    """append the reference encoding of v; returns the list of 'delivery units' [(value, type, end)]:
+    one per value, except for a stream where every item is delivered separately"""
+    if t[0] == "prim":
+        x, wr, (n, bs), rd, eq = v
+        exp.append(bs, env.split(n, 1, len(bs)))
+        return [(x, t, exp.length)]
+    if t[0] == "stream":
+        units = []
+        if v:
+            exp.append(list(_c_uvarint(len(v))))
+            for x in v:
+                enc(env, t[1], x, exp, True)
+                units.append((x, t[1], exp.length))
+        exp.append([0])
+        units.append((None, ["end-of-stream"], exp.length))
+        return units
+    enc(env, t, v, exp, True)
+    return [(v, t, exp.length)]
+
+
+def h_trunc(env, ts, N, mode, maxlen=2):
+    cache = {}
+    sers, vals = [], []
+    for i, t in enumerate(ts):
+        if t[0] == "prim":
+            # primitives of the coded stream itself (read_unsigned_varint, read(struct), read_byte ...)
+            class _E:  # per-value input names
+                pass
+            pe = _Prefixed(env, "v%d." % i)
+            vals.append(_prim(pe, t[1]))
+            sers.append(None)
+        else:
+            sers.append(mk_ser(env, t, cache))
+            v, inr = gen(env, t, "v%d" % i, maxlen, cache)
+            env.assume(inr)
+            vals.append(v)
+    exp = env.data()
+    units = []
+    for t, v in zip(ts, vals):
+        units.append(_enc_units(env, t, v, exp, cache))
+    total = exp.length
+    cut = env.int("cut", 0, exp.cap)
+    env.assume(cut < total)
+    payload = [exp.at(i) for i in range(exp.cap)]
+    r, src, p, tt, (ok, e) = mk_reader(env, N, payload, total, mode, trail=0, cut=cut)
+    sfx = "[short-reads]" if mode == "short" else ""
+
+    def on_exc(e, end):
+        name = type(e).__name__
+        env.observe("exc", name)
+        env.reach("trunc.outcome-is-an-exception" + sfx)
+        if name != "EOFError":
+            env.fail("trunc.error-is-EOFError" + sfx, env.exc_key(e) + (":short-read-schedule" if mode == "short" else ""),
+                     "truncated stream reported with %s instead of EOFError: %s" % (name, str(e)[:60]))
+        else:
+            env.reach("trunc.error-is-EOFError" + sfx)
+        if mode != "short":
+            env.check("trunc.no-error-before-the-cut" + sfx, cut < end, "py:trunc:error-although-value-complete", "an error was raised although every byte of the value was present")
+
+    def delivered(x, t, end, rv):
+        env.check("trunc.normal-return-only-if-complete" + sfx, end <= cut, "py:trunc:%s:normal-return-on-truncated-value" % t[0],
+                  "a read returned normally although the stream was cut inside the value")
+        if t[0] == "end-of-stream":
+            return
+        if t[0] == "prim":
+            env.check("trunc.delivered==written" + sfx, x[4](rv, x[0]), "py:trunc:prim:%s:delivered-value-differs" % t[1], "a value delivered before the error differs from the written one")
+        else:
+            env.check("trunc.delivered==written" + sfx, veq(env, t, x, rv), "py:trunc:%s:delivered-value-differs" % t[0], "a value delivered before the error differs from the written one")
+
+    if not ok:
+        return on_exc(e, 0 if False else total)  # the skip itself hit the cut (only when cut == 0 region); any position
+    for t, ser, v, us in zip(ts, sers, vals, units):
+        if t[0] == "stream":
+            it = ser.read(r)
+            for x, ut, end in us:
+                env.tick("stream items")
+                ok, rv = env.attempt(next, it, _END)
+                if not ok:
+                    return on_exc(rv, end)
+                if ut[0] == "end-of-stream":
+                    env.check("trunc.delivered==written" + sfx, rv is _END, "py:trunc:stream:extra-item", "stream delivered an item that was not written")
+                    delivered(None, ut, end, None)
+                else:
+                    if rv is _END:
+                        env.fail("trunc.delivered==written" + sfx, "py:trunc:stream:ended-early", "stream ended before all written items were delivered")
+                        return
+                    delivered(x, ut, end, rv)
+        else:
+            x, ut, end = us[0]
+            ok, rv = env.attempt((lambda: v[3](r)) if t[0] == "prim" else (lambda: ser.read(r)))
+            if not ok:
+                return on_exc(rv, end)
+            delivered(v if t[0] == "prim" else x, ut, end, rv)
+    env.reach("trunc.all-values-delivered")   # only reachable if some check above failed (cut < total)
+
+
+_END = object()
+
+
+class _Prefixed:
+    """env facade that prefixes input names (several primitives in one harness)"""
+
+    def __init__(self, env, pre):
+        self._e, self._p = env, pre
+
+    def __getattr__(self, n):
+        return getattr(self._e, n)
+
+    def int(self, name, lo, hi, default=None):
+        return self._e.int(self._p + name, lo, hi, default)
+
+    def bool(self, name):
+        return self._e.bool(self._p + name)
+
+    def f32(self, name):
+        return self._e.f32(self._p + name)
+
+    def f64(self, name):
+        return self._e.f64(self._p + name)
+
+
+# ------------------------------------------------------------------------------------------------
+# C17 batching independence / item independence
+
+def compositions(n):
+    """all ordered partitions of n items into non-empty blocks"""
+    if n == 0:
+        return [[]]
+    out = []
+    for first in range(1, n + 1):
+        for rest in compositions(n - first):
+            out.append([first] + rest)
+    return out
+
+
+def _blocks_expected(env, t_item, items, blocks, exp, split=False):
+    i = 0
+    for b in blocks:
+        exp.append(list(_c_uvarint(b)))
+        for x in items[i:i + b]:
+            enc(env, t_item, x, exp, split)
+        i += b
+    exp.append([0])
+    return exp
+
+
+def h_batch_write(env, t_item, N, nmax, variant):
+    """StreamSerializer.write with a list / a generator / several batches (+ empty batches): the bytes
+    are the reference stream encoding under the corresponding block partition, i.e. they decode
+    (reference decoder, see lemma) to the same item sequence whatever the grouping was."""
+    cache = {}
+    t = ["stream", t_item]
+    ser = mk_ser(env, t, cache)
+    n = env.choice("n", nmax + 1)
+    items = []
+    for i in range(n):
+        v, inr = gen(env, t_item, "i%d" % i, 2, cache)
+        env.assume(inr)
+        items.append(v)
+    w, sink, off = mk_writer(env, N)
+    if variant == "list":
+        calls, blocks = [list(items)], ([n] if n else [])
+    elif variant in ("generator", "iter", "tuple"):
+        wv = (x for x in items) if variant == "generator" else iter(items) if variant == "iter" else tuple(items)
+        calls, blocks = [wv], [1] * n
+    else:  # batches: a solver-chosen composition, with an empty batch interleaved
+        comps = compositions(n)
+        blocks = comps[env.choice("partition", len(comps))]
+        calls, i = [], 0
+        for b in blocks:
+            calls.append(items[i:i + b])
+            calls.append([])          # an empty batch must not end the stream
+            i += b
+    for c in calls:
+        ok, e = env.attempt(ser.write, w, c)
+        if not ok:
+            return unexpected(env, "batch.write-no-exception", e)
+    ok, e = env.attempt(lambda: (w.ensure_capacity(1), w.write_byte_no_check(0), w.flush()))
+    if not ok:
+        return unexpected(env, "batch.write-no-exception", e)
+    env.reach("batch.write-no-exception")
+    exp = _blocks_expected(env, t_item, items, blocks, env.data(), True)
+    check_sink(env, "batch.bytes==reference(partition)", sink, off, exp, "py:batch:%s:bytes-differ" % variant)
+    env.observe("outlen", sink.length)
+    env.observe("out", [sink.at(off + i) for i in range(exp.cap)])
+
+
+def h_batch_read(env, t_item, N, mode, nmax):
+    """StreamSerializer.read under every block partition of n <= nmax items returns exactly the items,
+    as fresh objects, consuming exactly the stream."""
+    cache = {}
+    t = ["stream", t_item]
+    ser = mk_ser(env, t, cache)
+    n = env.choice("n", nmax + 1)
+    items = []
+    for i in range(n):
+        v, inr = gen(env, t_item, "i%d" % i, 2, cache)
+        env.assume(inr)
+        items.append(v)
+    comps = compositions(n)
+    blocks = comps[env.choice("partition", len(comps))]
+    exp = _blocks_expected(env, t_item, items, blocks, env.data(), True)
+    payload = [exp.at(i) for i in range(exp.cap)]
+    sfx = "[short-reads]" if mode == "short" else ""
+    r, src, p, tt, (ok, e) = mk_reader(env, N, payload, exp.length, mode)
+    if not ok:
+        return unexpected(env, "batch.read-no-exception" + sfx, e, "", mode)
+    ok, rv = env.attempt(lambda: list(ser.read(r)))
+    if not ok:
+        return unexpected(env, "batch.read-no-exception" + sfx, rv, "", mode)
+    env.reach("batch.read-no-exception" + sfx)
+    env.check("batch.items==written" + sfx, veq(env, t, items, rv), "py:batch:read:items-differ", "items read differ from the items written (partition %s)" % blocks)
+    env.check("batch.consumed==produced" + sfx, EQ(consumed(r, src), p + exp.length), "py:batch:read:consumed-differs")
+    fresh = True
+    for a in range(len(rv)):
+        for b in range(a + 1, len(rv)):
+            if isinstance(rv[a], (list, dict)) and rv[a] is rv[b]:
+                fresh = False
+    env.check("batch.items-are-fresh-objects" + sfx, fresh, "py:batch:read:item-object-reused", "two items share one mutable object")
+    env.observe("items", obs_val(env, t, rv))
+
+
+# ------------------------------------------------------------------------------------------------
+# C15 header: readers refuse foreign streams
+
+OWN = '{"protocol":{"name":"P","sequence":[{"name":"a","type":"int32"}]},"types":null}'
+OTHER_SAME_LEN = OWN.replace("int32", "int64")          # near-identical model: one field type differs
+OTHER_LONGER = OWN.replace('"a"', '"abc"')
+SCHEMAS = [OWN, OTHER_SAME_LEN, OTHER_LONGER, ""]
+
+
+def h_header_binary(env, mode="full"):
+    B = env.B
+    magic = env.bytes("magic", 5)
+    ver = env.bytes("ver", 4)
+    si = env.choice("schema", len(SCHEMAS))
+    expected = [OWN, OTHER_SAME_LEN, None, ""][env.choice("expected", 4)]
+    sb = SCHEMAS[si].encode("utf-8")
+    data = env.data()
+    data.append(magic).append(ver).append(list(_c_uvarint(len(sb))) + list(sb))
+    header_len = data.length
+    data.append(env.bytes("step", 3))
+    src = env.source(data, mode)
+    rd = object.__new__(B.BinaryProtocolReader)
+    ok, e = env.attempt(rd.__init__, src, expected)
+    magic_ok = AND(*[EQ(m, c) for m, c in zip(magic, b"yardl")])
+    ver_ok = AND(EQ(ver[0], 1), EQ(ver[1], 0), EQ(ver[2], 0), EQ(ver[3], 0))
+    schema_ok = (not expected) or SCHEMAS[si] == expected     # falsy expected_schema skips the comparison by design
+    valid = AND(magic_ok, ver_ok, schema_ok)
+    cs = getattr(rd, "_stream", None)
+    if ok:
+        env.observe("outcome", "accepted")
+        env.check("header.accept-only-if-valid", valid, "py:BinaryProtocolReader.__init__:foreign-header-accepted",
+                  "constructor returned normally although magic/version/schema do not match")
+        env.check("header.cursor==header-length", EQ(consumed(cs, src), header_len), "py:BinaryProtocolReader.__init__:cursor-not-at-header-end")
+        env.check("header.schema-recorded", rd._schema == SCHEMAS[si], "py:BinaryProtocolReader.__init__:schema-misread")
+    else:
+        name = type(e).__name__
+        env.observe("outcome", name)
+        if name != "RuntimeError":
+            return unexpected(env, "header.refusal-is-RuntimeError", e)
+        env.reach("header.refusal-is-RuntimeError")
+        env.check("header.refuse-only-if-invalid", NOT(valid), "py:BinaryProtocolReader.__init__:valid-header-refused", "a valid header was refused")
+        env.check("header.refused-before-any-step-byte", consumed(cs, src) <= header_len, "py:BinaryProtocolReader.__init__:step-bytes-consumed-before-refusal",
+                  "bytes past the header were consumed before the refusal")
+
+
+class _HeaderToken(str):
+    """the header line of an NDJSON stream whose parsed form is chosen by the solver"""
+    obj = None
+    bad = False
+
+
+class _JsonStub:
+    def __init__(self, real):
+        self._real = real
+        self.JSONDecodeError = real.JSONDecodeError
+
+    def loads(self, s, *a, **kw):
+        if isinstance(s, _HeaderToken):
+            if s.bad:
+                raise self._real.JSONDecodeError("stub", "x", 0)
+            return s.obj
+        return self._real.loads(s, *a, **kw)
+
+    def __getattr__(self, n):
+        return getattr(self._real, n)
+
+
+class _LineStream:
+    def __init__(self, lines):
+        self.lines, self.reads = list(lines), 0
+
+    def readline(self):
+        self.reads += 1
+        return self.lines.pop(0) if self.lines else ""
+
+    def close(self):
+        pass
+
+
+def h_header_ndjson(env):
+    """NDJsonProtocolReader.__init__ on a solver-chosen header object.  Stub: json.loads of the header
+    line returns the chosen object (shape by forking, version a symbolic int); natively the line is the
+    real JSON text of that object."""
+    import json as real_json
+    J = env.J
+    shape = env.choice("shape", 6)
+    ver = env.int("version", -2**31, 2**31 - 1)
+    si = env.choice("schema", 4)     # own / other / longer / key missing
+    expected = [OWN, OTHER_SAME_LEN][env.choice("expected", 2)]
+    schemas = [OWN, OTHER_SAME_LEN, OTHER_LONGER, None]
+    inner = {"version": ver}
+    if schemas[si] is not None:
+        inner["schema"] = real_json.loads(schemas[si])
+    objs = [None, [1, 2], {"foo": 1}, {"yardl": 5}, {"yardl": inner}, {"yardl": {"schema": inner.get("schema")}}]
+    obj = objs[shape]
+    if env.mode == "sym":
+        line = _HeaderToken("<header>")
+        line.obj, line.bad = obj, shape == 0
+        old = J.json
+        J.json = _JsonStub(old if not isinstance(old, _JsonStub) else old._real)
+    else:
+        line = "this is not json\n" if shape == 0 else real_json.dumps(obj) + "\n"
+    st = _LineStream([line, '{"a":1}\n'])
+    try:
+        ok, e = env.attempt(J.NDJsonProtocolReader, st, expected)
+    finally:
+        if env.mode == "sym":
+            J.json = old
+    valid = AND(shape == 4, EQ(ver, 1), schemas[si] == expected)
+    if ok:
+        env.observe("outcome", "accepted")
+        env.check("ndjson-header.accept-only-if-valid", valid, "py:NDJsonProtocolReader.__init__:foreign-header-accepted")
+        env.check("ndjson-header.one-line-consumed", st.reads == 1, "py:NDJsonProtocolReader.__init__:more-than-the-header-line-read")
+    else:
+        name = type(e).__name__
+        env.observe("outcome", name)
+        if name != "ValueError":
+            return unexpected(env, "ndjson-header.refusal-is-ValueError", e)
+        env.reach("ndjson-header.refusal-is-ValueError")
+        env.check("ndjson-header.refuse-only-if-invalid", NOT(valid), "py:NDJsonProtocolReader.__init__:valid-header-refused")
+        env.check("ndjson-header.refused-before-any-step-line", st.reads <= 1, "py:NDJsonProtocolReader.__init__:step-line-consumed-before-refusal")
+
+
+# ------------------------------------------------------------------------------------------------
+# C02 NDJSON converters: from_json(to_json(v)) == v at the Python-object level (through the JSON data model)
+
+CONV_SIMPLE = {"int8": "int8_converter", "uint8": "uint8_converter", "int16": "int16_converter", "uint16": "uint16_converter",
+               "int32": "int32_converter", "uint32": "uint32_converter", "int64": "int64_converter", "uint64": "uint64_converter",
+               "size": "size_converter", "bool": "bool_converter", "float32": "float32_converter", "float64": "float64_converter",
+               "complexfloat32": "complexfloat32_converter", "complexfloat64": "complexfloat64_converter", "string": "string_converter",
+               "date": "date_converter", "time": "time_converter", "datetime": "datetime_converter"}
+FLOATS = [0.0, -1.5, 5.0, 1e300, 3.4028234663852886e38]
+KIND_OF = {bool: "bool", int: "number", float: "number", str: "string", list: "array", dict: "object", type(None): "null"}
+
+
+def json_kind(j):
+    from engine.pysym.core import SymInt, SymBool
+    if isinstance(j, SymBool):
+        return "bool"
+    if isinstance(j, SymInt):
+        return "number"
+    return KIND_OF.get(type(j), type(j).__name__)
+
+
+def json_types_for(kind, t):
+    return {"bool": [bool], "string": [str], "array": [list], "object": [dict],
+            "number": [int, float] if t[0] in ("float32", "float64") else [int]}[kind]
+
+
+def mk_conv(env, t, cache):
+    J = env.J
+    k = t[0]
+    if k in CONV_SIMPLE:
+        return getattr(J, CONV_SIMPLE[k])
+    if k == "optional":
+        return J.OptionalConverter(mk_conv(env, t[1], cache))
+    if k == "vector":
+        return J.VectorConverter(mk_conv(env, t[1], cache))
+    if k == "fixedvector":
+        return J.FixedVectorConverter(mk_conv(env, t[1], cache), t[2])
+    if k == "map":
+        return J.MapConverter(mk_conv(env, t[1], cache), mk_conv(env, t[2], cache))
+    if k == "union":          # ["union", cases, simple]
+        cases, simple = t[1], t[2]
+        nn = [c for c in cases if c is not None]
+        U, cls = mk_union_classes(env, len(nn))
+        cache[id(t)] = (U, cls)
+        lst, j = [], 0
+        for c in cases:
+            if c is None:
+                lst.append(None)
+            else:
+                conv = mk_conv(env, c, cache)
+                lst.append((cls[j], conv, json_types_for(REP_KIND[c[0]], c)))
+                j += 1
+        return J.UnionConverter(U, lst, simple)
+    if k == "enum":
+        import numpy as np
+        E = env.T.OutOfRangeEnum("E", {("M%d" % i): v for i, v in enumerate(t[2])})
+        cache[id(t)] = E
+        n2v = {m.name: m for m in E}
+        v2n = {m: m.name for m in E}
+        return J.EnumConverter(E, np.int32, n2v, v2n)
+    if k == "flags":
+        import enum, numpy as np
+        F = enum.IntFlag("F", {("B%d" % i): v for i, v in enumerate(t[1])})
+        cache[id(t)] = F
+        n2v = {m.name: m for m in F}
+        v2n = {m: m.name for m in F}
+        return J.FlagsConverter(F, np.int32, n2v, v2n)
+    raise KeyError(k)
+
+
+REP_KIND = {"int8": "number", "uint8": "number", "int16": "number", "uint16": "number", "int32": "number", "uint32": "number",
+            "int64": "number", "uint64": "number", "size": "number", "bool": "bool", "float32": "number", "float64": "number",
+            "string": "string", "vector": "array", "fixedvector": "array", "date": "string", "time": "string", "datetime": "string",
+            "complexfloat32": "array", "complexfloat64": "array"}   # kinds used only to build simple-union harness cases; checked against the real converter below
+
+
+def gen_json(env, t, name, maxlen, cache):
+    k = t[0]
+    if k in ("float32", "float64"):
+        return FLOATS[env.choice(name, len(FLOATS) - (0 if k == "float32" else 0))], True
+    if k in ("complexfloat32", "complexfloat64"):
+        return complex(FLOATS[env.choice(name + ".re", 3)], FLOATS[env.choice(name + ".im", 3)]), True
+    if k == "flags":
+        F = cache[id(t)]
+        pool = [0, t[1][0], t[1][0] | t[1][-1], 64, t[1][0] | 64]
+        return F(pool[env.choice(name, len(pool))]), True
+    if k == "optional":
+        if env.choice(name + ".has", 2) == 0:
+            return None, True
+        return gen_json(env, t[1], name + ".v", maxlen, cache)
+    if k == "union":
+        tag = env.choice(name + ".tag", len(t[1]))
+        if t[1][tag] is None:
+            return None, True
+        U, cls = cache[id(t)]
+        j = sum(1 for c in t[1][:tag] if c is not None)
+        v, ok = gen_json(env, t[1][tag], name + ".v", maxlen, cache)
+        return cls[j](v), ok
+    if k == "vector":
+        n = env.choice(name + ".len", maxlen + 1)
+        items = [gen_json(env, t[1], "%s.%d" % (name, i), maxlen, cache) for i in range(n)]
+        return [v for v, _ in items], AND(*[c for _, c in items]) if items else True
+    if k == "fixedvector":
+        items = [gen_json(env, t[1], "%s.%d" % (name, i), maxlen, cache) for i in range(t[2])]
+        return [v for v, _ in items], AND(*[c for _, c in items]) if items else True
+    if k == "map":
+        n = env.choice(name + ".len", maxlen + 1)
+        d, conds = {}, []
+        for i in range(n):
+            kk, c1 = gen_json(env, t[1], "%s.k%d" % (name, i), maxlen, cache)
+            vv, c2 = gen_json(env, t[2], "%s.v%d" % (name, i), maxlen, cache)
+            d[kk] = vv
+        for kk, vv in d.items():
+            conds += [_inrange(t[1], kk), _inrange(t[2], vv)]
+        return d, AND(*conds) if conds else True
+    return gen(env, t, name, maxlen, cache)
+
+
+def json_pass(env, j):
+    """what json.dumps + json.loads do to the object, leaving symbolic number/bool leaves in place"""
+    import json
+    from engine.pysym.core import SymInt, SymBool
+    if isinstance(j, (SymInt, SymBool)) or j is None:
+        return j
+    if isinstance(j, (list, tuple)):
+        return [json_pass(env, x) for x in j]
+    if isinstance(j, dict):
+        return {(k if isinstance(k, str) else json.dumps(k)): json_pass(env, v) for k, v in j.items()}
+    return json.loads(json.dumps(j))
+
+
+def jeq(env, t, a, b):
+    k = t[0]
+    if k in ("float32", "float64"):
+        return type(a) is type(b) and a == b
+    if k in ("complexfloat32", "complexfloat64"):
+        return isinstance(b, complex) and a == b
+    if k == "flags":
+        return type(a) is type(b) and int(a) == int(b)
+    if k == "optional":
+        if a is None or b is None:
+            return a is None and b is None
+        return jeq(env, t[1], a, b)
+    if k == "union":
+        if a is None or b is None:
+            return a is None and b is None
+        if type(a) is not type(b):
+            return False
+        nn = [c for c in t[1] if c is not None]
+        return jeq(env, nn[type(a).index], a.value, b.value)
+    if k in ("vector", "fixedvector"):
+        if not isinstance(b, list) or len(a) != len(b):
+            return False
+        return AND(*[jeq(env, t[1], x, y) for x, y in zip(a, b)]) if a else True
+    if k == "map":
+        if not isinstance(b, dict) or len(a) != len(b):
+            return False
+        return AND(*[AND(jeq(env, t[1], k1, k2), jeq(env, t[2], v1, v2)) for (k1, v1), (k2, v2) in zip(a.items(), b.items())]) if a else True
+    return veq(env, t, a, b)
+
+
+def h_conv(env, t, maxlen=2):
+    cache = {}
+    conv = mk_conv(env, t, cache)
+    v, inr = gen_json(env, t, "v", maxlen, cache)
+    ok, j = env.attempt(conv.to_json, v)
+    if not ok:
+        if type(j).__name__ == "ValueError":
+            env.observe("exc", "ValueError")
+            env.check("conv.range-error-only-if-out-of-range", NOT(inr), env.exc_key(j) + ":in-range-value-rejected")
+            return
+        return unexpected(env, "conv.to_json-no-unexpected-exception", j)
+    env.reach("conv.to_json-no-unexpected-exception")
+    env.check("conv.out-of-range-is-rejected", inr, "py:ndjson:%s:out-of-range-value-accepted" % t[0])
+    env.observe("kind", json_kind(j))
+    ok, j2 = env.attempt(json_pass, env, j)
+    if not ok:
+        return unexpected(env, "conv.json-representable", j2)
+    ok, v2 = env.attempt(conv.from_json, j2)
+    if not ok:
+        return unexpected(env, "conv.from_json-no-exception", v2)
+    env.reach("conv.from_json-no-exception")
+    env.check("conv.from_json(to_json(v))==v", jeq(env, t, v, v2), "py:ndjson:%s:roundtrip-differs" % tname_short(t), "from_json(to_json(v)) differs from v")
+
+
+def tname_short(t):
+    if t[0] == "union":
+        return "union[%s]%s" % ("|".join("null" if c is None else c[0] for c in t[1]), "/simple" if t[2] else "/tagged")
+    if t[0] in ("optional", "vector", "fixedvector"):
+        return "%s<%s>" % (t[0], tname_short(t[1]))
+    if t[0] == "map":
+        return "map<%s,%s>" % (t[1][0], tname_short(t[2]))
+    return t[0]
+
+
+def h_json_kinds(env):
+    """JSON kind (python type of to_json's result) per primitive converter, extracted from the real code"""
+    import datetime
+    reps = {"bool": True, "int8": 1, "uint8": 1, "int16": 1, "uint16": 1, "int32": 1, "uint32": 1, "int64": 1, "uint64": 1, "size": 1,
+            "float32": 1.5, "float64": 1.5, "complexfloat32": 1 + 2j, "complexfloat64": 1 + 2j, "string": "s",
+            "date": datetime.date(2024, 2, 29), "time": env.T.Time(1), "datetime": env.T.DateTime(1)}
+    out = {}
+    for k, rep in reps.items():
+        out[k] = json_kind(getattr(env.J, CONV_SIMPLE[k]).to_json(rep))
+    env.observe("json_kinds", sorted(out.items()))
+    env.reach("conv.json-kinds-extracted")
+    for k, kind in out.items():
+        if k in REP_KIND:
+            env.check("conv.kind-table-matches-runtime", kind == REP_KIND[k], "py:ndjson:kind-table:%s" % k, "harness kind table differs from the real converter")
+    return out
+
+
+def h_ndjson_lines(env, nmax=2):
+    """NDJsonProtocolReader._read_json_line look-ahead (_unused_value): step a (required), stream step s
+    (0..nmax items, optional values may be null), step b (required)."""
+    import json as real_json
+    J = env.J
+    n = env.choice("n", nmax + 1)
+    a = env.int("a", -2**31, 2**31 - 1)
+    items = []
+    for i in range(n):
+        items.append(None if env.choice("s%d.null" % i, 2) else env.int("s%d" % i, 0, 255))
+    b = env.bool("b")
+    objs = [{"a": a}] + [{"s": x} for x in items] + [{"b": b}]
+    if env.mode == "sym":
+        lines = []
+        for o in objs:
+            tok = _HeaderToken("<line>")
+            tok.obj = o
+            lines.append(tok)
+        old = J.json
+        J.json = _JsonStub(old if not isinstance(old, _JsonStub) else old._real)
+    else:
+        lines = [real_json.dumps(o) + "\n" for o in objs]
+    rd = object.__new__(J.NDJsonProtocolReader)
+    rd._stream = _LineStream(lines)
+    rd._owns_stream = False
+    rd._unused_value = None
+
+    def run():
+        ra = rd._read_json_line("a", True)
+        got = []
+        while True:
+            env.tick("stream lines", nmax + 3)
+            x = rd._read_json_line("s", False)
+            if x is J.MISSING_SENTINEL:
+                break
+            got.append(x)
+        rb = rd._read_json_line("b", True)
+        return ra, got, rb
+    try:
+        ok, res = env.attempt(run)
+    finally:
+        if env.mode == "sym":
+            J.json = old
+    if not ok:
+        return unexpected(env, "lines.no-exception", res)
+    env.reach("lines.no-exception")
+    ra, got, rb = res
+    env.check("lines.values==written", AND(EQ(ra, a), len(got) == len(items), AND(*[EQ(x, y) for x, y in zip(got, items)]) if items and len(got) == len(items) else True, EQ(rb, b)),
+              "py:ndjson:_read_json_line:values-differ", "step values read differ from the lines written")
+    env.check("lines.all-lines-consumed-once", rd._stream.reads == len(objs), "py:ndjson:_read_json_line:line-count")
